@@ -222,6 +222,15 @@ def impl(case):
                 db = parse_string(text, 'yaml')
             r = canon_reports(captured)
             r['db'] = canon_db(db)
+            # what was read must be a database like any other: writable in every format
+            extra = {}
+            for f in FORMATS:
+                try:
+                    with errors.capture():
+                        extra[f] = canon_db(parse_string(db.to_string(f), f))['entries'] is not None
+                except Exception as e:  # noqa
+                    extra[f] = compat.pybtex_error_kind(e)
+            r['extra'] = extra
             return r
         if op == 'xmlread':
             from pybtex.database import parse_string
@@ -426,6 +435,17 @@ def oracle(case, io, reply):
                 norm = {'entries': [dict(e, orig_type=e['type']) for e in me['entries']], 'preamble': me['preamble']}
                 if r != norm or not ex.get('repr_eq'):
                     fails.append('repr: eval(repr(db)) = %r, expected %r' % (r, norm))
+        return fails
+    if op == 'yamlread':
+        if 'error' in io:
+            return fails
+        for e in io['db']['entries']:
+            for k, v in e['fields']:
+                if not isinstance(v, str):
+                    fails.append('yaml_values: field %r of entry %r was read as %r (%s), not as a string' % (k, e['key'], v, type(v).__name__))
+        for f, res in io.get('extra', {}).items():
+            if isinstance(res, str) and res.startswith('INTERNAL'):
+                fails.append('yaml_values: the database read from YAML cannot be written as %s: %s' % (f, res))
         return fails
     return fails
 
@@ -649,8 +669,11 @@ def gen_cases(tier, rng, info):
     for i in range(400 if not thorough else 5000):
         j = _random_db(rng, persons, VALUES + VALUES_OUT * 2, out=True)
         chain = [rng.choice(FORMATS) for _ in range(rng.choice([1, 1, 2]))]
-        if not xml_representable(j) or not yaml_lossless(j):
-            chain = ['bibtex' if (f == 'bibtexml' and not xml_representable(j)) or (f == 'yaml' and not yaml_lossless(j)) else f for f in chain]
+        # the model's serialisers are the identity: keep what PyYAML / XML cannot represent away from them (a YAML field
+        # called "type" replaces the entry type by an arbitrary value, which is no XML name any more)
+        has_type = any(k.lower() == 'type' for e in j['entries'] for k, _ in e['fields'])
+        if not xml_representable(j) or not yaml_lossless(j) or has_type:
+            chain = ['bibtex' if (f == 'bibtexml' and (has_type or not xml_representable(j))) or (f == 'yaml' and not yaml_lossless(j)) else f for f in chain]
         cases.append({'op': 'convert', 'db': j, 'chain': chain, 'preserve_case': rng.random() < 0.7 or len(chain) < 2, 'stream': 'outside-domain'})
         cases.append({'op': 'bibwrite', 'db': j})
     # --- reader-only trees (YAML values that are not strings, person elements in every form)
